@@ -163,12 +163,21 @@ fn sched(rng: &mut Rng, d: usize) -> String {
     if d == 0 || rng.chance(1, 3) { return match rng.below(3) { 0 => "(run)".into(), 1 => "(run rs)".into(), _ => format!("(run rs :until {})", fact(rng)) }; }
     match rng.below(3) { 0 => format!("(saturate {})", sched(rng, d - 1)), 1 => format!("(repeat {} {} {})", rng.below(5), sched(rng, d - 1), sched(rng, d - 1)), _ => format!("(seq {} {})", sched(rng, d - 1), sched(rng, d - 1)) }
 }
+/// the trailing options of a function / constructor declaration, in the order the printer writes them
+fn decl_opts(rng: &mut Rng) -> String {
+    let mut s = String::new();
+    if rng.chance(1, 3) { s.push_str(" :unextractable"); }
+    if rng.chance(1, 5) { s.push_str(" :internal-hidden"); }
+    if rng.chance(1, 5) { s.push_str(" :internal-let"); }
+    if rng.chance(1, 5) { s.push_str(&format!(" :internal-term-constructor tc{}", rng.below(3))); }
+    s
+}
 fn command(rng: &mut Rng) -> String {
     match rng.below(24) {
-        0 => format!("(function g{} (M) i64 :merge {})", rng.below(9), ["(min old new)", "(max old new)", "(+ old new)", "old", "new"][rng.below(5)]),
-        1 => format!("(function n{} (M i64) String :no-merge)", rng.below(9)),
-        2 => format!("(constructor K{} (M i64) M :cost {})", rng.below(9), [0u64, 1, 17, 9223372036854775807][rng.below(4)]),
-        3 => format!("(constructor U{} (M) M :unextractable)", rng.below(9)),
+        0 => format!("(function g{} (M) i64 :merge {}{})", rng.below(9), ["(min old new)", "(max old new)", "(+ old new)", "old", "new"][rng.below(5)], decl_opts(rng)),
+        1 => format!("(function n{} (M i64) String :no-merge{})", rng.below(9), decl_opts(rng)),
+        2 => format!("(constructor K{} (M i64) M :cost {}{})", rng.below(9), [0u64, 1, 17, 9223372036854775807][rng.below(4)], decl_opts(rng)),
+        3 => format!("(constructor U{} (M) M :unextractable{})", rng.below(9), decl_opts(rng).replace(" :unextractable", "")),
         4 => format!("(relation Q{} (M i64 String))", rng.below(9)),
         5 => format!("(rule ({} {}) ({} {}) :ruleset rs{}{})", fact(rng), fact(rng), action(rng), action(rng),
                 if rng.chance(1, 2) { format!(" :name {}", Literal::String(format!("n{}", nasty_string(rng)))) } else { String::new() }, ["", " :naive", " :unsafe-seminaive", " :no-decomp"][rng.below(4)]),
